@@ -93,17 +93,45 @@ def introReqPack : List Val → Option (List Val)
     some [d, l, w, .tuple [n e.1, n e.2, sns, n 0, n 0, n 0, n 0, adv], ident, extra]
   | _ => none
 
+/-- DiscoveryIntroductionRequestPayload.to_pack_list: ("c20s", b"Y", introduce_to) in front -/
+def discIntroReqPack : List Val → Option (List Val)
+  | .atom (.bytes key) :: rest => (introReqPack rest).map (fun r => Val.tuple [.bytes (ascii "Y"), .bytes key] :: r)
+  | _ => none
+
+/-- IntroductionResponsePayload.to_pack_list on attributes [dest, lan, wan, lan_intro, wan_intro, connection_type,
+    identifier, extra_bytes, supports_new_style, intro_supports_new_style, peer_limit_reached] -/
+def introRespPack : List Val → Option (List Val)
+  | [d, l, w, li, wi, .str ct, ident, extra, .atom sns, .atom isns, .atom plr] =>
+    let e := encConn ct
+    some [d, l, w, li, wi, .tuple [n e.1, n e.2, n 0, sns, isns, plr, n 0, n 0], ident, extra]
+  | _ => none
+
+/-- IntroductionRequestPayload.from_unpack_list (then `__init__`) -/
+def introReqUnpack : List Val → Option (List Val)
+  | [d, l, w, .tuple [c0, c1, sns, _, _, _, _, adv], .atom (.nat ident), extra] =>
+    some [d, l, w, .atom (asBit adv), .str (decConn c0 c1), .atom (.nat (ident % 65536)), extra, .atom sns]
+  | _ => none
+
+/-- DiscoveryIntroductionRequestPayload.from_unpack_list: `introduce_to[1]`, supports_new_style is the constructor default -/
+def discIntroReqUnpack : List Val → Option (List Val)
+  | [.tuple [_, .bytes key], d, l, w, .tuple [c0, c1, _, _, _, _, _, adv], .atom (.nat ident), extra] =>
+    some [.atom (.bytes key), d, l, w, .atom (asBit adv), .str (decConn c0 c1), .atom (.nat (ident % 65536)),
+          extra, .atom (n 1)]
+  | _ => none
+
+def introRespUnpack : List Val → Option (List Val)
+  | [d, l, w, li, wi, .tuple [c0, c1, _, sns, isns, plr, _, _], .atom (.nat ident), extra] =>
+    some [d, l, w, li, wi, .str (decConn c0 c1), .atom (.nat (ident % 65536)), extra,
+          .atom sns, .atom isns, .atom plr]
+  | _ => none
+
 def toPackL (cls : String) (a : List Val) : Option (List Val) :=
   let c := short cls
   if identityClasses.contains c || identLastClasses.contains c then some a
   else match c, a with
   | "IntroductionRequestPayload", a => introReqPack a
-  | "DiscoveryIntroductionRequestPayload", .atom (.bytes key) :: rest =>
-    (introReqPack rest).map (fun r => Val.tuple [.bytes (ascii "Y"), .bytes key] :: r)
-  | "IntroductionResponsePayload",
-      [d, l, w, li, wi, .str ct, ident, extra, .atom sns, .atom isns, .atom plr] =>
-    let e := encConn ct
-    some [d, l, w, li, wi, .tuple [n e.1, n e.2, n 0, sns, isns, plr, n 0, n 0], ident, extra]
+  | "DiscoveryIntroductionRequestPayload", a => discIntroReqPack a
+  | "IntroductionResponsePayload", a => introRespPack a
   | "SimilarityRequestPayload", [ident, l, w, .str ct, .list prefs] =>
     let e := encConn ct
     (joinBytes prefs.toList).map (fun b =>
@@ -119,17 +147,9 @@ def fromUnpackL (cls : String) (ul : List Val) : Option (List Val) :=
   if identityClasses.contains c then some ul
   else if identLastClasses.contains c then some (modLast ul)
   else match c, ul with
-  | "IntroductionRequestPayload",
-      [d, l, w, .tuple [c0, c1, sns, _, _, _, _, adv], .atom (.nat ident), extra] =>
-    some [d, l, w, .atom (asBit adv), .str (decConn c0 c1), .atom (.nat (ident % 65536)), extra, .atom sns]
-  | "DiscoveryIntroductionRequestPayload",
-      [.tuple [_, .bytes key], d, l, w, .tuple [c0, c1, _, _, _, _, _, adv], .atom (.nat ident), extra] =>
-    some [.atom (.bytes key), d, l, w, .atom (asBit adv), .str (decConn c0 c1), .atom (.nat (ident % 65536)),
-          extra, .atom (n 1)]
-  | "IntroductionResponsePayload",
-      [d, l, w, li, wi, .tuple [c0, c1, _, sns, isns, plr, _, _], .atom (.nat ident), extra] =>
-    some [d, l, w, li, wi, .str (decConn c0 c1), .atom (.nat (ident % 65536)), extra,
-          .atom sns, .atom isns, .atom plr]
+  | "IntroductionRequestPayload", ul => introReqUnpack ul
+  | "DiscoveryIntroductionRequestPayload", ul => discIntroReqUnpack ul
+  | "IntroductionResponsePayload", ul => introRespUnpack ul
   | "SimilarityRequestPayload",
       [.atom (.nat ident), l, w, .tuple [c0, c1, _, _, _, _, _, _], .atom (.bytes prefs)] =>
     some [.atom (.nat (ident % 65536)), l, w, .str (decConn c0 c1), bytesList (chunks 20 prefs)]
